@@ -981,6 +981,8 @@ func c19Push(c *Ctx) {
 		}
 	}
 	c.Check(okPush, "push/config-blob", "the config helper tests and pushes the very descriptor it returns", w.FnPos(CFG), "")
+	c19ConfigStored(c, CFG, gname)
+	c.MinCount("push/config-stored", 1, "config helpers whose success exits are decided")
 	_ = sort.Strings
 	_ = constant.MakeBool
 }
